@@ -120,8 +120,7 @@ def _closure(ctx, typ, name):
 
 
 def _cmp(ctx, f, ref_src, construct, what):
-    got = SB.summary(f.node)
-    want = SB.summary_of_source(ref_src)
+    got, want = SB.agree(f.node, ref_src)
     ctx.stats['terms_compared'] += len(got)
     ctx.check(got == want, construct, what, '%s differs from its documented form: %s' % (construct, SB.diff(got, want)), f, f.node)
 
@@ -263,8 +262,7 @@ def combinators(ctx):
               'inequality: 0 - f ; equality: not f', 'not_ inverts as %s / %s' % (b1, b2), f, i0)
     g = ctx.func(CP + ':additive.dec.func')
     from .. import siblings as SB
-    got = SB.summary(g.node)
-    want = SB.summary_of_source('def func(x, *argz, **kwdz):\n    return f(x, *argz, **kwdz) + penalty(x, *args, **kwds)\n')
+    got, want = SB.agree(g.node, 'def func(x, *argz, **kwdz):\n    return f(x, *argz, **kwdz) + penalty(x, *args, **kwds)\n')
     ctx.check(got == want, 'coupler.additive', 'f(x,*argz,**kwdz) + penalty(x,*args,**kwds)', 'additive composes differently: %s' % SB.diff(got, want), g, g.node)
 
 
